@@ -86,10 +86,13 @@ where
         shuffled.extend(inter);
     }
     let mut ev = lib!(PiecewiseEvaluator::new(&tag.segments));
+    // NaN arguments go to an evaluator of their own: whether a NaN query influences later answers is C16's
+    // business, not C19's
+    let mut ev_nan = lib!(PiecewiseEvaluator::new(&tag.segments));
     for (phase, seq) in [&alpha, &shuffled].iter().enumerate() {
         for &x in seq.iter() {
             let direct = lib!(tag.evaluate(x));
-            let stateful = lib!(ev.evaluate(x));
+            let stateful = if x.is_nan() { lib!(ev_nan.evaluate(x)) } else { lib!(ev.evaluate(x)) };
             if x.is_nan() {
                 // NaN: panic-freedom only. Which segment answers a NaN argument is not pinned by any listed
                 // property (C02 and C03 exclude NaN, C16 asks for no panic and for harmlessness), so the routes
